@@ -271,7 +271,7 @@ def forced_wait_extra(tier, rng, build_cache, known):
 
 PINNED = ['C02_refuted_result_in_stealing_pool', 'C02_no_lost_wakeup', 'C02_prompt', 'C02_own_result_protocol', 'C02_woken_means_result', 'C02_refuted_old_protocol', 'C02_single_pool', 'C02_finished_task_never_times_out', 'C02_timeout_only_without_result', 'C02_join_finished_returns_own', 'C02_join_timeout_only_if_unfinished', 'C02_join_expired_deadline_still_returns', 'C02_join_result_handed_out_once', 'C02_facade_finished_returns_own', 'C02_facade_expired_deadline_still_returns', 'C02_facade_timeout_only_if_unfinished', 'C02_facade_calls_are_safe', 'C02_facade_handed_out_once', 'C02_facade_oracle_accepts_model', 'C02_facade_limit_address_overflow_aborts', 'C02_facade_limit_errors_conflated', 'C02_facade_limit_payload_not_injective', 'C02_facade_never_none', 'C02_facade_refuted_old_string_payload', 'C02_facade_refuted_old_duration_overflow', 'C02_facade_old_agrees_elsewhere', 'C02_facade_refuted_old_any_zero_duration', 'C02_facade_any_value_is_a_members', 'C02_facade_any_returns_earliest', 'C02_facade_refuted_any_join_drops_panicked_task', 'C02_facade_any_holds_outside', 'C02_co_wait_returns_own_result', 'C02_co_wait_finished_runs_nothing', 'C02_co_wait_timeout_only_if_absent']
 LEVEL_TEXT = "Four layers. (4, user-facing) open_coroutine::JoinHandle<R> over the C ABI of the cdylib over the core join handle: for EVERY outcome of the task (any returned value; panic with a literal, a formatted, a non-string payload), every call (join, timeout_join with any duration incl. zero and Duration::MAX) and every clock, a task finished by the deadline yields exactly its own value or its panic message, a failure is reported only if it had not finished, the boxed result is unboxed at most once and never from a wrong address; what the ABI cannot carry is stated (addresses above i64::MAX abort, task errors/timeouts/invalid handles are all -1, non-string payloads get a fixed text); any_timeout_join/any_join return a value of a member that finished (the earliest), with the KNOWN finding that a panicked member's outcome is dropped (refuted with witness, holds outside). Tied to the repository by harness-e2e: a binary that links only the open-coroutine crate, one process per case, real time, judged in Coq. (1)-(3): (1) Pool model: theorem over ALL well-formed single-pool histories that every wait/take returns the task's own outcome (value or panic message), or the cancel/stop error where that applies, hands a result out once and reports 'no result' only when there is none. (2) The wait/notify protocol of wait_task_result against try_run's insert+notify as a small-step model, one step per access to the shared maps: for EVERY interleaving of waiter, completer and timeout (finite reachable set computed and lifted to all schedules) no lost wake-up, promptness (once the task completed an unreturned waiter can proceed without its timeout), a result only after it was produced and once, a woken waiter finds the result, and a task that finished before the wait began never yields a timeout whatever the wait time; the protocol before the repair is refuted with the 4-step schedule. (3) JoinHandle deadline arithmetic: a finished task's join returns its own outcome for every deadline including zero and expired ones, a timeout only if the task had not finished by the deadline, the result is handed out once. With two loops/pools the property is REFUTED (result stored in the stealing pool), a recorded finding. Tied to /repo by pool histories compared in Coq, by the forced schedule through the pause point in wait_task_result (real threads: completion between check and registration), and by real EventLoops/JoinHandle joins with zero/past/now/soon/far/unlimited deadlines."
-LEVEL_NOTE = "Facade layer: the model (Sched/Facade.v) is a hand transcription of crate_task/task_main, JoinHandle::join/timeout_join/any_timeout_join (open-coroutine/src/lib.rs) and task_join/task_timeout_join (hook/src/lib.rs) as function-level summaries on top of jh_step; values and messages are their Debug/Display renderings; the address of the boxed result is not observable (theorems hold for every address in 1..i64::MAX); any_timeout_join is modelled by its answer (earliest value-yielding member), not by its 10 ms polling loop, so cases where two members finish within 200 ms of each other or of the deadline are judged by the oracle only (tag facade_ambiguous_timing / ac_ambiguous); real time with generous margins (a publish lag above 0.5 s or a call returning 2 s after the task ended counts as a failure); default features only (no preemptive, no io_uring); one event loop. Trusted: Coq kernel + vm_compute; hand transcription of co_pool/mod.rs, task.rs and the parts of scheduler.rs it uses (Sched/Pool.v over Sched/Sched.v, Coroutine/Co.v, Queue/OWS.v), validated on the sampled histories only; one scheduling thread at a time (the pool's scheduling half is !Sync), virtual clock (hooks H1/H2), DashMap/DashSet as association lists, process-global task/coroutine queues and cancel sets modelled as shared state of all pools. The single-pool theorems assume wf_pool1: ONE pool with min_size 0, keep_alive_time 0, max_size >= 1, operations naming submitted tasks, task bodies that keep the coroutine API contract (no self-cancel, syscall states well bracketed), clock steps not below the model clock; the evidence counts how many generated histories satisfy it (tag wf_pool1). Histories with two pools, or with keep-alive/min-size (keepalive_stop family), are covered by the correspondence and the oracle only. No axioms (every theorem closed under the global context)."
+LEVEL_NOTE = "Facade layer: the model (Sched/Facade.v) is a hand transcription of crate_task/task_main, JoinHandle::join/timeout_join/any_timeout_join (open-coroutine/src/lib.rs) and task_join/task_timeout_join (hook/src/lib.rs) as function-level summaries on top of jh_step; values and messages are their Debug/Display renderings; the address of the boxed result is not observable (theorems hold for every address in 1..i64::MAX); any_timeout_join is modelled by its answer (earliest value-yielding member), not by its 10 ms polling loop, so cases where two members finish within 200 ms of each other or of the deadline are judged by the oracle only (tag facade_ambiguous_timing / ac_ambiguous); real time with generous margins (a publish lag above 0.5 s or a call returning 2 s after the task ended counts as a failure); default features only (no preemptive, no io_uring); one event loop. Trusted: Coq kernel + vm_compute; hand transcription of co_pool/mod.rs, task.rs and the parts of scheduler.rs it uses (Sched/Pool.v over Sched/Sched.v, Coroutine/Co.v, Queue/OWS.v), validated on the sampled histories only; one scheduling thread at a time (the pool's scheduling half is !Sync), virtual clock (hooks H1/H2), DashMap/DashSet as association lists, process-global task/coroutine queues and cancel sets modelled as shared state of all pools. The single-pool theorems assume wf_pool1: ONE pool with min_size 0, ANY keep_alive_time, max_size >= 1, a clock that does not reach u64::MAX while a keep-alive is pending (for C01/C11), operations naming submitted tasks, task bodies that keep the coroutine API contract (no self-cancel, syscall states well bracketed), clock steps not below the model clock; the evidence counts how many generated histories satisfy it (tag wf_pool1). Histories with two pools, or with a minimum size, are covered by the correspondence and the oracle only. No axioms (every theorem closed under the global context)."
 TECHNIQUE = 'Coq proof (simulation invariant over all histories of a Gallina pool model; finite-state closure lifted to all schedules for the wait/notify and signal protocols) + differential correspondence inside Coq + forced real-thread schedules through cfg-guarded pause points'
 
 LEVEL_TEXT += (' A wait made FROM a task (the caller is a coroutine of the pool) does not block: it runs queued tasks inline until the wanted result '
